@@ -413,10 +413,14 @@ static int inc_open (char *buf, const char *name) {
   return -1;
 }
 
+/* The #include line has been consumed. When it was the last complete line in the
+ * buffer, the lexer must not go on reading behind it: refill like the other directives do. */
 #define include_error(x) do {\
         current_line--;\
         yyerror(x);\
         current_line++;\
+        if (outptr == last_nl + 1)\
+          refill_buffer ();\
         } while(0)
 
 static void handle_include (const char *inc_name, int optional) {
